@@ -515,7 +515,7 @@ def _main(tier_, master, cfg, docs, A, cwd, t0):
         for i in range(wi, n, nw):
             kind, calls = history_for(master, i, docs, table)
             outs, opened, sk, _ = run_history(mods, calls, cwd)
-            rd[0] = (rd[0] + common.run_digest_term(i, [calls, outs])) & ((1 << 64) - 1)
+            rd[0] = (rd[0] + common.run_digest_term(i, [calls, common.canon_outcome(outs)])) & ((1 << 64) - 1)
             st.inc('runs'); st.inc('calls', len(calls)); st.inc('kind:' + kind)
             allfiles |= set(opened); allsocks += sk
             fl = flags(calls, table)
@@ -668,7 +668,7 @@ def det_fingerprints(prop, master, idxs, k=None):
         for i in idxs:
             kind, calls = history_for(master, i, docs, {})
             outs, opened, sk, _ = run_history(mods, calls, cwd)
-            out[str(i)] = common.digest_of([kind, calls, outs, [os.path.relpath(f, common.REPO) for f in opened if f.endswith('.json')]])
+            out[str(i)] = common.digest_of([kind, calls, common.canon_outcome(outs), [os.path.relpath(f, common.REPO) for f in opened if f.endswith('.json')]])
         return out
     finally:
         shutil.rmtree(cwd, ignore_errors=True)
@@ -685,7 +685,7 @@ def determinism_selftest(master, n, docs, table, cwd):
     b = {}
     for p in common.run_pool(w, 3, wall_cap=900):
         b.update(p)
-    env = dict(os.environ, PYTHONHASHSEED='777', PYTHONDONTWRITEBYTECODE='1')
+    env = dict(os.environ, VERIF_HASHSEED='777', PYTHONHASHSEED='777', PYTHONDONTWRITEBYTECODE='1')
     sub = idxs[:max(4, n // 4)]
     p = subprocess.run([sys.executable, os.path.join(common.VERIF_DIR, 'run_check.py'), '--det-fingerprint',
                         PROP, str(master), ','.join(map(str, sub)), '0'], env=env, capture_output=True, text=True, timeout=1200)
